@@ -81,7 +81,7 @@ def getattr_default(ex, ctx, base, name, default):
 
 
 def complex_model(ex, ctx, args, kw):
-    FE.assumed("complex(x)", "complex(x) succeeds for every numeric SymPy value (incl. +-oo, NaN) and raises TypeError when free symbols remain")
+    FE.assumed("complex(x)", "complex(x) succeeds for every numeric SymPy value (incl. +-oo, NaN) and raises TypeError when free symbols remain (KNOWN EXCEPTION, SymPy 1.14: complex((-1)**(x + oo)) returns nan+nan*I for a symbolic x -- finding D30; the executable C06 contract covers it, the VCs do not)")
     v = C.as_val(args[0])
     res = []
     if ex.feasible(ctx, M.v_is_number(v)):
